@@ -76,7 +76,7 @@ impl Service {
         &mut self,
         mut instance: Instance,
         update_tag: Option<InstanceUpdateTag>,
-        from_sync: bool,
+        _from_sync: bool,
         meta_manager_addr: &Option<Addr<InstanceMetaManager>>,
     ) -> (UpdateInstanceType, Option<Arc<String>>, UpdatePerpetualType) {
         //!("test update_instance {:?}", &instance);
@@ -207,8 +207,8 @@ impl Service {
             rtype = UpdateInstanceType::New;
         }
         let new_instance = Arc::new(instance);
-        // 非来自集群的更新才维护实例心跳检测
-        if new_instance.is_enable_timeout() && !from_sync {
+        // 归本节点负责的临时http实例都要维护心跳检测(包含通过集群同步/镜像收到的,否则不会再有其它地方为它登记过期检查)
+        if new_instance.is_enable_timeout() {
             self.healthy_timeout_set.add(
                 new_instance.last_modified_millis as u64,
                 new_instance.get_short_key(),
